@@ -72,7 +72,7 @@ def select(cfgs, tier):
     out = []
     for gi, k in enumerate(sorted(groups)):
         g = groups[k]
-        mod = 36 if k[1] == "tiny" else (12 if k[0] == "unet" else 2)
+        mod = 18 if k[1] == "tiny" else (6 if k[0] == "unet" else 2)
         pick = [c for j, c in enumerate(g) if (j + gi) % mod == 0]
         out += pick if (pick or k[1] == "tiny") else [g[gi % len(g)]]
     return out
@@ -268,7 +268,7 @@ def run(tier, seed):
                  "built and completed every call of its history (so every shape and the function clauses were judged)" % (
                      n_valid + n_bnd, "all of them" if tier == "thorough" else
                      "covering subset: every backbone setting and every (strides, rate, head type, head strides) combination of UNet and the "
-                     "small-arch wrappers (decided by TLC), plus 1/36 of the `tiny` wrappers"))
+                     "small-arch wrappers (decided by TLC), plus 1/18 of the `tiny` wrappers"))
         for x in (done[0] if done else None, done[-1] if done else None, recs[0]):
             if x:
                 res.sample(dict(cfg=x["cfg"], build=x["ev"][0], last_call=x["ev"][-1]))
